@@ -293,6 +293,100 @@ func c10(r *engine.Report, p *engine.Program) {
 	}
 	r.Check("R5-expiry-notice", "forwardMessage: expiry is reported to the origin", fm.Pos(), okN,
 		"from the budget-exhausted edge every path to a return passes sendUnreachable(md.FromNode, {md's four address fields, ProblemExpiredInTransit}) unless the packet is itself an unreach notice, and never reaches the relay", whyN)
+	// R5b the budget is decided before anything else can end the call: with both outcomes of the
+	// budget test removed, no return of forwardMessage is reachable
+	{
+		cutBoth := engine.EdgeSet{}
+		for _, e := range nonpos {
+			cutBoth = cutBoth.Add(engine.Edge{From: e.From, Succ: 0}, engine.Edge{From: e.From, Succ: 1})
+		}
+		early := engine.Reach(fm, nil, cutBoth, nil, func(in ssa.Instruction) bool { _, ok := in.(*ssa.Return); return ok })
+		r.Check("R5-expiry-notice", "forwardMessage: the budget test precedes every other exit", fm.Pos(), len(nonpos) > 0 && early == nil,
+			"every return of forwardMessage lies behind the HopsToLive test, so a packet whose budget ran out is reported as expired whatever the routing table says (no route, dead next hop)",
+			"a return at "+descInstr(p, early)+" is reachable without testing the budget: a packet whose budget ran out at a node with no route or no live next hop ends there silently instead of being reported as expired")
+	}
+	// R5c traceroute probes every budget up to and including the forwarding limit
+	if trf := p.Func("netceptor.CreateTraceroute$1"); trf != nil {
+		okIncl, whyIncl := false, "no comparison of the probe counter with MaxForwardingHops() was found"
+		isMax := func(v ssa.Value) bool {
+			v = engine.Unwrap(v)
+			if c, ok := v.(*ssa.Call); ok && c.Common().IsInvoke() && c.Common().Method.Name() == "MaxForwardingHops" {
+				return true
+			}
+			return false
+		}
+		var pings []ssa.Instruction
+		for _, ci := range engine.CallsIn(trf) {
+			if ci.Common().IsInvoke() && ci.Common().Method.Name() == "Ping" {
+				pings = append(pings, ci)
+			}
+		}
+		for _, i := range engine.Ifs(trf) {
+			bo, ok := i.Cond.(*ssa.BinOp)
+			if !ok {
+				continue
+			}
+			// counter OP max(+k)
+			off := int64(0)
+			side := func(v ssa.Value) (bool, int64) {
+				if isMax(v) {
+					return true, 0
+				}
+				if b, ok := engine.Unwrap(v).(*ssa.BinOp); ok && (b.Op == token.ADD || b.Op == token.SUB) && isMax(b.X) {
+					if k, ok := engine.ConstInt(b.Y); ok {
+						if b.Op == token.SUB {
+							k = -k
+						}
+						return true, k
+					}
+				}
+				return false, 0
+			}
+			op := bo.Op
+			if okY, k := side(bo.Y); okY {
+				off = k
+			} else if okX, k := side(bo.X); okX {
+				off = k
+				op = flipOp(op)
+			} else {
+				continue
+			}
+			// value of `counter OP max+off` when counter == max  ⇔  0 OP off
+			var val bool
+			switch op {
+			case token.LSS:
+				val = 0 < off
+			case token.LEQ:
+				val = 0 <= off
+			case token.GTR:
+				val = 0 > off
+			case token.GEQ:
+				val = 0 >= off
+			case token.NEQ:
+				val = off != 0
+			case token.EQL:
+				val = off == 0
+			default:
+				continue
+			}
+			succ := 1
+			if val {
+				succ = 0
+			}
+			isPing := func(in ssa.Instruction) bool { return isOneOf(in, pings) }
+			// from the edge taken when counter == MaxForwardingHops(), the probe is sent before the loop can end
+			hit := reachFromEdge(trf, engine.Edge{From: i.Block(), Succ: succ}, nil, isPing, func(in ssa.Instruction) bool {
+				_, isRet := in.(*ssa.Return)
+				return isRet
+			})
+			okIncl = len(pings) > 0 && hit == nil
+			if !okIncl {
+				whyIncl = "when the probe counter equals MaxForwardingHops() the loop ends without sending the probe: a destination exactly that many links away is reachable by ping but never listed by traceroute"
+			}
+		}
+		r.Check("R5-expiry-notice", "CreateTraceroute: probes every budget 0..MaxForwardingHops() inclusive", trf.Pos(), okIncl,
+			"on the edge taken when the counter equals MaxForwardingHops() the Ping call is reached before any return", whyIncl)
+	}
 	// ping / traceroute test for the same constant
 	wantP, _ := constStringOf(p.Const("netceptor", "ProblemExpiredInTransit"))
 	tr := p.Func("netceptor.CreateTraceroute$1")
